@@ -127,7 +127,15 @@ def gen_chain(rng, opts=None):
     common = {"exclude_patterns": None, "lstrip_paths": None, "base_path": None, "normalize_line_endings": False, "paths": None}
     if not simple:
         common["exclude_patterns"] = rng.choice([None, ["*.log", "*.link*"], ["out", "*.link*"], ["*.pyc", "build.log", "*.link*"],
-                                                 ["/build", "*.link*"], ["/build", "*.link*"]])
+                                                 ["/build", "*.link*"], ["/build", "*.link*"], [], [], ["tmpdir/", "*.link*"]])
+        if common["exclude_patterns"] and "tmpdir/" in common["exclude_patterns"]:
+            # a pattern with a trailing slash names DIRECTORIES only: the regular file of that name stays covered
+            spec["tmpdir"] = ("d", {"cache.o": ("f", b"o")})
+            spec["src"][1]["tmpdir"] = ("f", b"a regular file named like the excluded directory\n")
+        if common["exclude_patterns"] == []:
+            # an EMPTY pattern list means "the default patterns" (*.link*, .git, *.pyc, *~), not "exclude nothing"
+            spec["cache.pyc"] = ("f", b"pyc")
+            spec["src"][1]["main.c~"] = ("f", b"backup")
         if common["exclude_patterns"] and "/build" in common["exclude_patterns"]:
             # a root-anchored pattern next to a deeper directory of the same name: only ./build is left out
             spec["build"] = ("d", {"out.o": ("f", b"obj")})
@@ -135,7 +143,9 @@ def gen_chain(rng, opts=None):
         common["normalize_line_endings"] = rng.random() < 0.4
         if rng.random() < 0.35 and not force:
             # prefix stripping: only the FIRST matching prefix is removed (checkout/vendor/x.c -> vendor/x.c)
-            spec["checkout"] = ("d", {"vendor": ("d", {"x.c": ("f", b"x")}), "app.c": ("f", b"app")})
+            # (... and only at the START of the path: checkout/sub/checkout/deep.c -> sub/checkout/deep.c)
+            spec["checkout"] = ("d", {"vendor": ("d", {"x.c": ("f", b"x")}), "app.c": ("f", b"app"),
+                                      "sub": ("d", {"checkout": ("d", {"deep.c": ("f", b"deep")})})})
             spec["vendor"] = ("d", {"y.c": ("f", b"y")})
             common["lstrip_paths"] = rng.choice([["checkout/", "vendor/"], ["vendor/", "checkout/"], ["checkout/"]])
         r2 = rng.random()
